@@ -100,8 +100,10 @@ func child(seed int64, seconds float64, g int, only []roundDesc, repeat int, ref
 		// another fresh process; the later rounds run alone, concurrently, alone again
 		cfg := c19.MixCfg{PoolSeed: rd.PoolSeed, BatchSeed: rd.BatchSeed, K: rd.K, G: g, SchedSeed: rd.SchedSeed, Focus: rd.Focus}
 		if first {
-			cfg.Cold, cfg.Ref = true, ref
+			cfg.Cold, cfg.Ref = true, ref // ref: the batch run alone, in reverse order, by another fresh process
 			first = false
+		} else if rd.Round%4 == 2 {
+			cfg.Fresh, cfg.Singles = true, 1 // also compared with fresh processes: the batch in reverse order, and one call alone
 		}
 		m := c19.RunMixCfg(cfg)
 		ncalls += rd.K * (g + 1)
@@ -312,14 +314,16 @@ func main() {
 			childSeed = *seed*1000 + int64(sl)
 			refPath := filepath.Join(*outDir, "vrace-soloref.json")
 			os.Remove(refPath)
-			if out, err := exec.Command(self, "-soloref", refPath, "-seed", fmt.Sprint(childSeed)).CombinedOutput(); err != nil {
+			refCmd := exec.Command(self, "-soloref", refPath, "-seed", fmt.Sprint(childSeed))
+			refCmd.Env = append(os.Environ(), "GORACE=atexit_sleep_ms=0") // the race runtime otherwise sleeps 1 s at every exit
+			if out, err := refCmd.CombinedOutput(); err != nil {
 				fmt.Printf("BROKEN vrace: the solo reference process failed: %v %s\n", err, strings.ReplaceAll(string(out), "\n", " | "))
 				os.Exit(2)
 			}
 			args = []string{"-child", "-seed", fmt.Sprint(childSeed), "-seconds", fmt.Sprint(d), "-goroutines", fmt.Sprint(*g), "-ref", refPath}
 		}
 		cmd := exec.Command(self, args...)
-		cmd.Env = append(os.Environ(), "GORACE=halt_on_error=1 exitcode=66")
+		cmd.Env = append(os.Environ(), "GORACE=halt_on_error=1 exitcode=66 atexit_sleep_ms=0")
 		var so bytes.Buffer
 		se.Reset()
 		cmd.Stdout, cmd.Stderr = &so, &se
